@@ -1,10 +1,206 @@
-import JP.Driver
-import JP.Impl.Den
+import JP.Lemmas.AllowRewrite
+import JP.Lemmas.AllowAbsent
 
-/-! # Property C13 — theorems (see DESIGN.md §6) -/
+/-!
+# C13: AllowMissingPathOnRemove skips only removes of absent targets (specification level)
+
+`Spec.applyOp` implements the option through `Spec.skipsRemove`; `Driver.specSkipped`
+computes the indices of the removes the specification skips along its own run and
+`Driver.eraseIdxs` deletes them.  The rewrite law: with the option on, the outcome is that
+of the patch with exactly the skipped removes deleted, run with the option off.
+-/
 
 namespace JP
 namespace C13
+open Spec AllowLemmas
+
+/-- position, in the shortened list, of the operation with original index `k` -/
+def newIdx (sk : List Nat) (k : Nat) : Nat := k - (sk.filter (· < k)).length
+
+/-- `ok v` with `ok v`; `fail` at original index `k` with `fail` at the corresponding index
+of the shortened list and the same cause; `unspec` (outside the domain) with anything -/
+def outcomeEq (sk : List Nat) : Outcome → Outcome → Prop
+  | .ok v, r => r = .ok v
+  | .fail k c, r => r = .fail (newIdx sk k) c
+  | .unspec, _ => True
+
+/-- the rewrite law.  Copy sizes are taken from the original positions: `sizeAt'` on the
+shortened list is `sizeAt` re-indexed. -/
+theorem rewrite (o : Opts) (sizeAt sizeAt' : Nat → Nat) (acc : Nat) (d : Value) (ops : List Op)
+    (sk : List Nat)
+    (h : Driver.specSkipped { o with allowMissing := true } 0 d ops = some sk)
+    (hsz : ∀ k, k ∉ sk → sizeAt' (newIdx sk k) = sizeAt k) :
+    outcomeEq sk (applyFrom { o with allowMissing := true } sizeAt 0 acc d ops)
+      (applyFrom { o with allowMissing := false } sizeAt' 0 acc d (Driver.eraseIdxs ops sk)) := by
+  have key := rewrite_from o sizeAt sizeAt' ops 0 0 acc d sk h (by
+    intro k _ hk
+    have := hsz k hk
+    simpa [newIdx, below] using this)
+  rw [eraseIdxs_eq]
+  have := outcomeEq_congr _ (newIdx sk) _ _ (by intro k c _; simp [newIdx, below]) key
+  revert this
+  cases applyFrom (on o) sizeAt 0 acc d ops <;> exact id
+
+/-- with the copy limit off the sizes (and the accumulators) are irrelevant -/
+theorem rewrite_nolimit (o : Opts) (hl : o.limit = 0) (sizeAt sizeAt' : Nat → Nat) (acc acc' : Nat)
+    (d : Value) (ops : List Op) (sk : List Nat)
+    (h : Driver.specSkipped { o with allowMissing := true } 0 d ops = some sk) :
+    outcomeEq sk (applyFrom { o with allowMissing := true } sizeAt 0 acc d ops)
+      (applyFrom { o with allowMissing := false } sizeAt' 0 acc' d (Driver.eraseIdxs ops sk)) := by
+  rw [applyFrom_limit0 (on o) hl sizeAt (fun k => sizeAt' (newIdx sk k)) ops 0 acc acc' d]
+  exact rewrite o _ sizeAt' acc' d ops sk h (fun _ _ => rfl)
+
+/-- the same for whole-document application -/
+theorem rewrite_apply (o : Opts) (sizeAt sizeAt' : Nat → Nat) (d : Value) (ops : List Op) (sk : List Nat)
+    (h : Driver.specSkipped { o with allowMissing := true } 0 d ops = some sk)
+    (hsz : ∀ k, k ∉ sk → sizeAt' (newIdx sk k) = sizeAt k) :
+    outcomeEq sk (Spec.apply { o with allowMissing := true } sizeAt d ops)
+      (Spec.apply { o with allowMissing := false } sizeAt' d (Driver.eraseIdxs ops sk)) := by
+  unfold Spec.apply
+  split
+  · exact rewrite o sizeAt sizeAt' 0 d ops sk h hsz
+  · trivial
+
+/-- removes of existing targets and all other operations behave exactly as without the option -/
+theorem others_unchanged (o : Opts) (size acc : Nat) (d : Value) (op : Op)
+    (h : op.kind ≠ .remove ∨
+      ∃ path, parsePointer op.path = some path ∧ skipsRemove o d path = .ok false) :
+    applyOp { o with allowMissing := true } size acc d op
+      = applyOp { o with allowMissing := false } size acc d op := by
+  by_cases hk : op.kind = .remove
+  · cases h with
+    | inl h => exact absurd hk h
+    | inr h =>
+      obtain ⟨path, hp, hs⟩ := h
+      cases path with
+      | nil => simp [skipsRemove, atParent] at hs
+      | cons t ts =>
+        rw [applyOp_remove_on o size acc d op t ts hk hp, applyOp_remove_off o size acc d op t ts hk hp, hs]
+  · exact applyOp_congr (on o) (off o) rfl rfl rfl size acc d op hk
+
+/-- … and such a remove does succeed -/
+theorem unskipped_succeeds (o : Opts) (size acc : Nat) (d : Value) (op : Op) (path : List Bytes)
+    (hk : op.kind = .remove) (hp : parsePointer op.path = some path)
+    (hs : skipsRemove o d path = .ok false) :
+    ∃ d', applyOp { o with allowMissing := true } size acc d op = .ok (d', acc) := by
+  cases path with
+  | nil => simp [skipsRemove, atParent] at hs
+  | cons t ts =>
+    obtain ⟨q, hq⟩ := skips_false_succeeds o d _ hs
+    exact ⟨q.1, by rw [applyOp_remove_on o size acc d op t ts hk hp, hs]; simp only [hq]; rfl⟩
+
+/-- a skipped remove leaves the document (and the copy accumulator) unchanged -/
+theorem skipped_is_identity (o : Opts) (size acc : Nat) (d : Value) (op : Op) (path : List Bytes)
+    (hk : op.kind = .remove) (hp : parsePointer op.path = some path)
+    (hs : skipsRemove o d path = .ok true) :
+    applyOp { o with allowMissing := true } size acc d op = .ok (d, acc) := by
+  cases path with
+  | nil => simp [skipsRemove, atParent] at hs
+  | cons t ts => rw [applyOp_remove_on o size acc d op t ts hk hp, hs]
+
+/-- only removes of absent targets are skipped: without the option a skipped remove fails -/
+theorem skipped_only_absent (o : Opts) (size acc : Nat) (d : Value) (op : Op) (path : List Bytes)
+    (hk : op.kind = .remove) (hp : parsePointer op.path = some path)
+    (hs : skipsRemove o d path = .ok true) :
+    ∃ c, applyOp { o with allowMissing := false } size acc d op = .fail c := by
+  cases path with
+  | nil => simp [skipsRemove, atParent] at hs
+  | cons t ts =>
+    obtain ⟨c, hc⟩ := skips_true_fails o d _ hs
+    exact ⟨c, by rw [applyOp_remove_off o size acc d op t ts hk hp, hc]; rfl⟩
+
+/-- the indices `specSkipped` reports are skipped removes: nothing else is deleted.  (Stated
+for the first operation; `specSkipped` proceeds along the run.) -/
+theorem specSkipped_head (o : Opts) (d : Value) (op : Op) (ops : List Op) (i : Nat) (sk : List Nat)
+    (h : Driver.specSkipped { o with allowMissing := true } i d (op :: ops) = some sk) :
+    (i ∈ sk ↔ op.kind = .remove ∧
+      ∃ path, parsePointer op.path = some path ∧ skipsRemove o d path = .ok true) := by
+  have hge := specSkipped_ge (on o) (op :: ops) i d sk h
+  rw [specSkipped_cons] at h
+  cases hh : here (on o) d op with
+  | none => simp [hh] at h
+  | some b =>
+    have hb : b = true ↔ op.kind = .remove ∧
+        ∃ path, parsePointer op.path = some path ∧ skipsRemove o d path = .ok true := by
+      unfold here at hh
+      simp only [skipsRemove_congr (on o) o rfl] at hh
+      split at hh
+      · rename_i hk
+        split at hh
+        · rename_i t ts hp
+          cases hs : skipsRemove o d (t :: ts) with
+          | ok b' =>
+            simp only [hs, Option.some.injEq] at hh
+            subst hh
+            constructor
+            · intro hb; subst hb; exact ⟨hk, _, hp, hs⟩
+            · rintro ⟨_, path, hp', hs'⟩
+              rw [hp] at hp'; cases hp'
+              rw [hs] at hs'; cases hs'; rfl
+          | fail c => exact absurd hs (skipsRemove_ne_fail o d _ c)
+          | unspec => simp [hs] at hh
+        · simp at hh
+      · rename_i hk
+        simp only [Option.some.injEq] at hh
+        subst hh
+        simp [hk]
+    rw [← hb]
+    simp only [hh] at h
+    cases hA : applyOp (on o) 0 0 d op with
+    | unspec => simp [hA] at h
+    | fail c =>
+      simp only [hA, Option.some.injEq] at h
+      subst h
+      cases b <;> simp
+    | ok p =>
+      simp only [hA] at h
+      cases hr : Driver.specSkipped (on o) (i + 1) p.1 ops with
+      | none => simp [hr] at h
+      | some r =>
+        simp only [hr, Option.map_some, Option.some.injEq] at h
+        subst h
+        have hrge := specSkipped_ge (on o) ops (i + 1) p.1 r hr
+        cases b
+        · simp only [Bool.false_eq_true, if_false, iff_false]
+          intro hm; have := hrge i hm; omega
+        · simp
+
+/-! ### the hypotheses are satisfiable -/
+
+def doc0 : Value := .obj [(ascii "a", .num (ascii "1")), (ascii "l", .arr [.null])]
+
+def ops0 : List Op :=
+  [ { kind := .remove, path := ascii "/b" },          -- absent member: skipped
+    { kind := .remove, path := ascii "/a" },          -- present: performed
+    { kind := .remove, path := ascii "/x/y" },        -- absent ancestor: skipped
+    { kind := .copy, path := ascii "/c", frm := ascii "/l" },
+    { kind := .remove, path := ascii "/l/3" },        -- index beyond the end: skipped
+    { kind := .remove, path := ascii "/l/0" } ]
+
+example : Driver.specSkipped { ({} : Opts) with allowMissing := true } 0 doc0 ops0 = some [0, 2, 4] := by
+  decide +kernel
+
+example : (Driver.eraseIdxs ops0 [0, 2, 4]).map (·.path) = [ascii "/a", ascii "/c", ascii "/l/0"] := by
+  decide +kernel
+
+example : [0, 1, 2, 3, 4, 5].map (newIdx [0, 2, 4]) = [0, 0, 1, 1, 2, 2] := by decide
+
+/-- hypotheses of `others_unchanged`, `skipped_is_identity` -/
+example : parsePointer (ascii "/a") = some [ascii "a"] ∧ skipsRemove {} doc0 [ascii "a"] = .ok false :=
+  ⟨by decide +kernel, by rfl⟩
+
+example : parsePointer (ascii "/x/y") = some [ascii "x", ascii "y"]
+    ∧ skipsRemove {} doc0 [ascii "x", ascii "y"] = .ok true :=
+  ⟨by decide +kernel, by rfl⟩
 
 end C13
 end JP
+
+-- #print axioms JP.C13.rewrite
+-- #print axioms JP.C13.rewrite_nolimit
+-- #print axioms JP.C13.rewrite_apply
+-- #print axioms JP.C13.others_unchanged
+-- #print axioms JP.C13.skipped_is_identity
+-- #print axioms JP.C13.skipped_only_absent
+-- #print axioms JP.C13.unskipped_succeeds
+-- #print axioms JP.C13.specSkipped_head
